@@ -416,7 +416,124 @@ func c05RunWideImpl(c *Ctx, kind uint64, o wOpts, n uint64, code uint64) Val {
 	return VL{outOf(putErr), outOf(finErr), vbool(readable)}
 }
 
+// kind "finalresume": phase 1 = open on a new file, puts, no Finalize (blockstore: Discard; storage: the handle is
+// dropped); `tail` zero bytes are appended to the file; phase 2 = reopen (resume), puts, Finalize.
+func c05RunResumeImpl(c *Ctx, kind uint64, o1 wOpts, roots []cid.Cid, h1 [][]Blk, tail uint64, o2 wOpts, h2 [][]Blk) Val {
+	ctx := context.Background()
+	dir, err := os.MkdirTemp(c.Work, "res")
+	if err != nil {
+		panic(err)
+	}
+	defer os.RemoveAll(dir)
+	path := filepath.Join(dir, "a.car")
+	putAll := func(put func(Blk) error, putMany func([]Blk) error, h [][]Blk) VL {
+		outs := VL{}
+		for _, b := range h {
+			if kind == 0 {
+				if len(b) == 1 {
+					outs = append(outs, VL{outOf(put(b[0]))})
+				} else {
+					outs = append(outs, VL{outOf(putMany(b))})
+				}
+				continue
+			}
+			bo := VL{}
+			for _, x := range b {
+				bo = append(bo, outOf(put(x)))
+			}
+			outs = append(outs, bo)
+		}
+		return outs
+	}
+	failAt := func(err error) Val {
+		return VL{outErr(err), VL{}, outNil(), VL{}, outNil(), VB(nil), VT("rej"), VT("rej")}
+	}
+	var outs1, outs2 VL
+	var reopenErr, finErr error
+	appendTail := func() {
+		if tail == 0 {
+			return
+		}
+		f, err := os.OpenFile(path, os.O_WRONLY|os.O_APPEND, 0o666)
+		if err != nil {
+			panic(err)
+		}
+		f.Write(make([]byte, tail))
+		f.Close()
+	}
+	if kind == 0 {
+		mk := func(bs *blockstore.ReadWrite) (func(Blk) error, func([]Blk) error) {
+			return func(x Blk) error {
+					blk, _ := blocks.NewBlockWithCid(x.Data, x.Cid)
+					return bs.Put(ctx, blk)
+				}, func(b []Blk) error {
+					var blks []blocks.Block
+					for _, x := range b {
+						blk, _ := blocks.NewBlockWithCid(x.Data, x.Cid)
+						blks = append(blks, blk)
+					}
+					return bs.PutMany(ctx, blks)
+				}
+		}
+		bs, err := blockstore.OpenReadWrite(path, roots, o1.v2()...)
+		if err != nil {
+			return failAt(err)
+		}
+		p1, pm1 := mk(bs)
+		outs1 = putAll(p1, pm1, h1)
+		bs.Discard()
+		appendTail()
+		bs2, err := blockstore.OpenReadWrite(path, roots, o2.v2()...)
+		reopenErr = err
+		if err == nil {
+			p2, pm2 := mk(bs2)
+			outs2 = putAll(p2, pm2, h2)
+			finErr = bs2.Finalize()
+		}
+	} else {
+		f, err := os.OpenFile(path, os.O_RDWR|os.O_CREATE, 0o666)
+		if err != nil {
+			panic(err)
+		}
+		sc, err := storage.NewReadableWritable(f, roots, o1.v2()...)
+		if err != nil {
+			f.Close()
+			return failAt(err)
+		}
+		outs1 = putAll(func(x Blk) error { return sc.Put(ctx, string(x.Cid.Bytes()), x.Data) }, nil, h1)
+		f.Close()
+		appendTail()
+		f2, err := os.OpenFile(path, os.O_RDWR, 0o666)
+		if err != nil {
+			panic(err)
+		}
+		defer f2.Close()
+		sc2, err := storage.OpenReadableWritable(f2, roots, o2.v2()...)
+		reopenErr = err
+		if err == nil {
+			outs2 = putAll(func(x Blk) error { return sc2.Put(ctx, string(x.Cid.Bytes()), x.Data) }, nil, h2)
+			finErr = sc2.Finalize()
+		}
+	}
+	file, _ := os.ReadFile(path)
+	if reopenErr != nil {
+		return VL{outNil(), outs1, outErr(reopenErr), VL{}, outNil(), VB(file), c05InspectVerdict(file), c05VerifyVerdict(c, file)}
+	}
+	return VL{outNil(), outs1, outNil(), outs2, outOf(finErr), VB(file), c05InspectVerdict(file), c05VerifyVerdict(c, file)}
+}
+
+func c05ResumeInput(kind uint64, o1 wOpts, roots []cid.Cid, h1 [][]Blk, tail uint64, o2 wOpts, h2 [][]Blk) Val {
+	base := c05FinalInput(kind, o1, roots, append(append([][]Blk{}, h1...), h2...), nil).(VL)
+	// base = (kind opts roots batches hok hdr)
+	return VL{VN(kind), o1.val(), base[2], c05BatchesVal(h1), VN(tail), o2.val(), c05BatchesVal(h2), base[4], VL{}}
+}
+
 func init() {
+	registerReplay("finalresume", func(c *Ctx, in Val) Val {
+		l := in.(VL)
+		return c05RunResumeImpl(c, uint64(l[0].(VN)), wOptsFromVal(l[1]), cidsFromVal(l[2]), c05BatchesFromVal(l[3]),
+			uint64(l[4].(VN)), wOptsFromVal(l[5]), c05BatchesFromVal(l[6]))
+	})
 	registerReplay("finalwide", func(c *Ctx, in Val) Val {
 		l := in.(VL)
 		return c05RunWideImpl(c, uint64(l[0].(VN)), wOptsFromVal(l[1]), uint64(l[2].(VN)), uint64(l[3].(VN)))
